@@ -176,7 +176,7 @@ func (a *Announce) getPeers(ctx context.Context, addr krpc.NodeAddr) traversal.Q
 		}
 		select {
 		case a.Peers <- peersValues:
-		case <-a.traversal.Stopped():
+		case <-a.closed.Done():
 		}
 	}
 	return res.TraversalQueryResult(addr)
